@@ -11,7 +11,9 @@ RULE = ('values of the three numeric types: integers from a boundary set (powers
         'boundaries) plus PRNG (thorough: all 65536), single/double byte patterns from vlib.mbf.gen_float/gen_pair '
         '(canonical and non-canonical zeros, extreme exponents, powers of two, all-ones mantissas, cancellation-prone '
         'and aligned pairs, widened singles); every (operator, typed operand tuple) is one case; all 9 type pairings '
-        'are drawn for the binary identities; identity chains and PRINT/variable programs run in a real Session')
+        'are drawn for the binary identities in both operand orders; identity chains and PRINT/variable programs run '
+        'in a real Session; the values-level and the Session-level parts are repeated with double-precision math '
+        'enabled (Values(double_math=True), Session(double=True)), results read losslessly through MKD$')
 EXPLANATION = ('theorems (PcbV.Props.C05): add_comm, mul_comm, add_zero, mul_one, div_one, sub_self, neg_neg, abs_spec, '
                'sgn_spec for ANY well-formed MBF format bit for bit, promotion_spec and the values-level corollaries; '
                'correspondence: result type+bytes (and substituted value on Overflow/Division by zero) of '
@@ -149,19 +151,20 @@ class Console(object):
 class Impl(object):
     """values.add/sub/mul/div/neg/abs_/sgn_ of the real code on fresh value objects."""
 
-    def __init__(self):
+    def __init__(self, double_math=False, dog=None):
         from pcbasic.basic.values import values, numbers
         from pcbasic.basic.base import error
         self.values, self.numbers, self.error = values, numbers, error
         self.console = Console()
-        self.vs = values.Values(None, False)
+        # double_math is the Values side of Session(double=True); + - * / unary - ABS SGN do not depend on it
+        self.vs = values.Values(None, double_math)
         self.vs.set_handler(values.FloatErrorHandler(self.console))
         self.cls = {'i': numbers.Integer, 's': numbers.Single, 'd': numbers.Double}
         self.tchar = {numbers.Integer: 'i', numbers.Single: 's', numbers.Double: 'd'}
         self.fn = {'add': values.add, 'sub': values.sub, 'mul': values.mul, 'div': values.div}
         self.touched = 0
         self.hangs = 0
-        self.dog = Watchdog()
+        self.dog = dog or Watchdog()
 
     def mk(self, v):
         return self.cls[v[0]](None, self.vs).from_bytes(v[1])
@@ -296,8 +299,8 @@ def expclass(v):
 
 
 class Checker(object):
-    def __init__(self, ctx, impl):
-        self.ctx, self.impl = ctx, impl
+    def __init__(self, ctx, impl, level='values'):
+        self.ctx, self.impl, self.level = ctx, impl, level
         self.cases, self.outs, self.lines = [], [], []
 
     def run(self, op, a, b=None):
@@ -318,12 +321,13 @@ class Checker(object):
 
     def flush(self):
         if self.cases:
-            self.ctx.compare(self.cases, self.outs, self.lines, label='values')
+            self.ctx.compare(self.cases, self.outs, self.lines, label=self.level)
         self.cases, self.outs, self.lines = [], [], []
 
     def fail(self, ident, a, b, what):
-        key = '%s:%s%s:%s' % (ident, a[0], b[0] if b is not None else '', expclass(a))
-        case = {'level': 'values', 'ident': ident, 'a': [a[0], mbf.hx(a[1])],
+        key = '%s%s:%s%s:%s' % ('' if self.level == 'values' else self.level + ':', ident, a[0],
+                                 b[0] if b is not None else '', expclass(a))
+        case = {'level': self.level, 'ident': ident, 'a': [a[0], mbf.hx(a[1])],
                 'b': [b[0], mbf.hx(b[1])] if b is not None else None}
         self.ctx.fail(key, case, what)
 
@@ -504,22 +508,30 @@ def lit(v):
 SIGIL = {'i': '%', 's': '!', 'd': '#'}
 
 
+READ8 = 'Z$=MKD$(%s):PRINT ' + ';'.join('ASC(MID$(Z$,%d,1))' % i for i in range(1, 9))
+
+
+def as_double(b):
+    """Exact Double image of Single or Double bytes (what MKD$ shows for a result of that type)."""
+    return b if len(b) == 8 else b'\0\0\0\0' + b
+
+
 def read_bytes(s, expr, t):
-    """Bytes of a numeric expression converted to float type t (MKS$/MKD$), or the error text."""
-    n = mbf.FMT[t]['size']
-    fn = 'MKS$' if t == 's' else 'MKD$'
-    out = s.execute(('Z$=%s(%s):FOR I%%=1 TO %d:PRINT ASC(MID$(Z$,I%%,1));:NEXT:PRINT' % (fn, expr, n)).encode())
+    """The 8 bytes MKD$ gives for a numeric expression, or the error text.  Widening to Double is exact, so the
+    bytes of a Single result appear behind four zero bytes and NOTHING is rounded away: a result that is wrongly a
+    Double (it then carries bits a Single cannot hold) or wrongly a Single is seen, whatever type `t` was expected."""
+    out = s.execute((READ8 % expr).encode())
     toks = out.split()
     try:
         vals = [int(x) for x in toks]
     except ValueError:
         return out
-    return bytes(vals) if len(vals) == n else out
+    return bytes(vals) if len(vals) == 8 else out
 
 
 class GuardedSession(object):
-    def __init__(self, ctx, dog):
-        self.s, self.ctx, self.dog = basic.new_session(), ctx, dog
+    def __init__(self, ctx, dog, **kw):
+        self.s, self.ctx, self.dog = basic.new_session(**kw), ctx, dog
 
     def __enter__(self):
         self.s.__enter__()
@@ -540,12 +552,15 @@ class GuardedSession(object):
             raise TooManyHangs()
 
 
-def basic_level(ctx, n_vals, n_chain, dog):
+def basic_level(ctx, n_vals, n_chain, dog, double=False):
+    """double=True: the same identities in a session with double-precision math enabled; the arithmetic
+    operators and their result types are specified independently of that option."""
     rng = ctx.rng
-    s = GuardedSession(ctx, dog)
+    s = GuardedSession(ctx, dog, double=True) if double else GuardedSession(ctx, dog)
+    tag = 'basic-double' if double else 'basic'
 
     def fail(key, prog, what):
-        ctx.fail('basic:' + key, {'level': 'basic', 'program': prog}, what)
+        ctx.fail('%s:%s' % (tag, key), {'level': tag, 'program': prog}, what)
 
     with s:
         # result types, seen through the number of digits PRINT shows (7 vs 16)
@@ -558,6 +573,20 @@ def basic_level(ctx, n_vals, n_chain, dog):
                 probes.append((ta, tb, '(%s/3)+%s' % (va, vb), {'s': 7, 'd': 16}))
                 probes.append((ta, tb, '(%s/7)*%s' % (va, vb), {'s': 7, 'd': 16}))
                 probes.append((ta, tb, '(%s/3)-%s' % (va, vb), {'s': 7, 'd': 16}))
+        # both operand orders of every pairing with the operands used directly (no intermediate result):
+        # 5, 1/3 and 3/7 as typed variables; inexact results print <= 7 digits as Single, 14..16 as Double
+        s.execute(b'N%=5:P!=1/3:Q!=3/7:P#=1#/3:Q#=3#/7')
+        direct = {'i': ('N%', 'N%'), 's': ('P!', 'Q!'), 'd': ('P#', 'Q#')}
+        for ta in TYPES:
+            for tb in TYPES:
+                if ta == tb == 'i':
+                    continue
+                for sym in '+-*/':
+                    probes.append((ta, tb, '%s%s%s' % (direct[ta][0], sym, direct[tb][1]), {'s': -7, 'd': -14}))
+        probes.append(('i', 'i', '-N%/3', {'s': 7}))
+        probes.append(('i', 'i', 'ABS(N%)/3', {'s': 7}))
+        probes.append(('i', 'i', '(N%+0%)/3', {'s': 7}))
+        probes.append(('i', 'i', '(N%-0%)/3', {'s': 7}))
         probes.append(('i', 'i', 'K%*K%', {'s': b'1.073676E+09'}))
         probes.append(('i', 'i', 'K%+K%', {'s': b'65534'}))
         probes.append(('i', 'i', '-K%-K%-2', {'s': b'-65536'}))
@@ -574,7 +603,9 @@ def basic_level(ctx, n_vals, n_chain, dog):
             ctx.count('basic:type-probe')
             exp = want[res_type(ta, tb)]
             if isinstance(exp, int):
-                ok = len([c for c in bytearray(out.lstrip(b'-0.')) if 48 <= c <= 57]) == exp
+                mant = out.replace(b'D', b'E').split(b'E')[0]     # digits of the mantissa, not of the exponent
+                nd = len([c for c in bytearray(mant.lstrip(b'-0.')) if 48 <= c <= 57])
+                ok = nd == exp if exp > 0 else (nd <= 7 if exp == -7 else nd >= 14)
             else:
                 ok = out == exp
             if not ok:
@@ -595,6 +626,14 @@ def basic_level(ctx, n_vals, n_chain, dog):
                 r2 = read_bytes(s, '%s%s%s' % (B, sym, A), t)
                 if r1 != r2:
                     fail('%s_comm:%s%s' % (opn, ta, tb), prog, '%s%s%s -> %r, swapped -> %r' % (A, sym, B, r1, r2))
+            if t == 's':
+                # a Single result widened by MKD$ has four zero bytes below its own; both operand orders
+                for sym in '+-*/':
+                    for expr in ('%s%s%s' % (A, sym, B), '%s%s%s' % (B, sym, A)):
+                        r = read_bytes(s, expr, t)
+                        if len(r) == 8 and r[:4] != b'\0\0\0\0' and b'Overflow' not in r and b'Division' not in r:
+                            fail('promotion:%s%s' % (ta, tb), prog,
+                                 '%s is not a Single: MKD$ shows %r' % (expr, r))
             tu = res_type(ta)
             wa = widen(a, tu)
             va = val(a)
@@ -606,10 +645,11 @@ def basic_level(ctx, n_vals, n_chain, dog):
                       ('abs', 'ABS(%s)' % A, clear_sign(wa))]
             for key, expr, exp in checks:
                 r = read_bytes(s, expr, tu)
-                if r != exp:
-                    fail('%s:%s:%s' % (key, ta, expclass(a)), prog, '%s -> %r, expected %r' % (expr, r, exp))
+                if r != as_double(exp):
+                    fail('%s:%s:%s' % (key, ta, expclass(a)), prog,
+                         '%s -> %r, expected %r' % (expr, r, as_double(exp)))
             r = read_bytes(s, '%s/1' % A, tu)
-            if r != want and not (va == 0 and r == wa):
+            if r != as_double(want) and not (va == 0 and r == as_double(wa)):
                 fail('div_one:%s:%s' % (ta, expclass(a)), prog, '%s/1 -> %r, expected %r' % (A, r, want))
             out = s.execute(('PRINT SGN(%s)' % A).encode()).split()
             if out != [b'%d' % ((va > 0) - (va < 0))]:
@@ -621,9 +661,9 @@ def basic_level(ctx, n_vals, n_chain, dog):
                 for key, expr in (('add_zero', '%s+0%s' % (A, z1)), ('mul_one', '%s*1%s' % (A, z1)),
                                   ('mul_one', '1%s*%s' % (z1, A))):
                     r = read_bytes(s, expr, tt)
-                    if r != w2:
+                    if r != as_double(w2):
                         fail('%s:%s%s:%s' % (key, ta, tz, expclass(a)), prog,
-                             '%s -> %r, expected %r' % (expr, r, w2))
+                             '%s -> %r, expected %r' % (expr, r, as_double(w2)))
         # a variable pushed through a program of identity statements keeps its bytes
         stmts = ['@X=@X+0', '@X=0+@X', '@X=@X*1', '@X=1*@X', '@X=@X/1', '@X=-(-@X)', '@X=@X-0', '@X=@X+0#',
                  '@X=@X*1#', '@X=@X/1#', '@X=@X+@Z', '@X=@X*@U', '@X=@U*@X', '@X=@X/@U', '@X=@X+0!', '@X=1!*@X',
@@ -646,7 +686,7 @@ def basic_level(ctx, n_vals, n_chain, dog):
             r = read_bytes(s, var, t)
             ctx.case(('basic-chain', x, tuple(body)))
             ctx.count('basic:chain')
-            if r != x[1]:
+            if r != as_double(x[1]):
                 fail('chain:%s:%s' % (t, expclass(x)), '\n'.join(lines), '%s went from %s to %r'
                      % (var, mbf.hx(x[1]), r))
 
@@ -711,9 +751,32 @@ def run_all(ctx):
     chk.flush()
     if impl.touched:
         ctx.fail('operand-modified', {'level': 'values'}, 'an operator modified one of its operands in place')
+    # the same operators on a Values object with double-precision math enabled (Session(double=True)):
+    # same model, same identities, every type pairing in both operand orders
+    dm = Checker(ctx, Impl(double_math=True, dog=impl.dog), level='values-double-math')
+    for w in (INT_B if quick else range(0, 65536, 7)):
+        dm.single(('i', struct.pack('<H', w)))
+    dm.flush()
+    for t in 'sd':
+        for z in ZEROS[t] + [ONES[t]]:
+            dm.single(z)
+        for _ in range(150 if quick else 5000):
+            dm.single(gen_value(rng, t))
+    dm.flush()
+    for ta in TYPES:
+        for tb in TYPES:
+            for _ in range(200 if quick else 8000):
+                a, b = gen_pairing(rng, ta, tb)
+                dm.pair(a, b)
+        dm.flush()
+    if dm.impl.touched:
+        ctx.fail('values-double-math:operand-modified', {'level': 'values-double-math'},
+                 'an operator modified one of its operands in place')
+    ctx.log('values level with double_math done: %d evaluations' % ctx.evaluations)
     float_level(ctx, 1500 if quick else 60000, impl.dog)
     ctx.log('float level done')
     basic_level(ctx, 50 if quick else 1000, 40 if quick else 600, impl.dog)
+    basic_level(ctx, 35 if quick else 1000, 20 if quick else 400, impl.dog, double=True)
     ctx.sample({'op': 'mul', 'a': 'd 0000000000000010 (2^-113)', 'b': 'd one',
                 'impl': impl.call('mul', ('d', b'\0\0\0\0\0\0\0\x10'), ONES['d'])})
     ctx.sample({'op': 'add', 'a': 'i -1', 'b': 'd one', 'impl': impl.call('add', ('i', b'\xff\xff'), ONES['d'])})
@@ -725,8 +788,8 @@ def replay(ctx, payload):
     sub = Ctx2(ctx)
     sub.rng = random.Random(payload.get('seed', 0))
     try:
-        if case.get('level') == 'values' and case.get('a') and case.get('ident') != 'chain':
-            chk = Checker(sub, Impl())
+        if case.get('level') in ('values', 'values-double-math') and case.get('a') and case.get('ident') != 'chain':
+            chk = Checker(sub, Impl(double_math=case['level'] != 'values'), level=case['level'])
             a = (case['a'][0], mbf.unhx(case['a'][1]))
             chk.single(a)
             if case.get('b'):
